@@ -42,8 +42,11 @@ MANIFEST = {
             'Gaussian-rational poles and zeros, irrational_roots_are_roots covers irrational ones (any degree) through the checked '
             'identity A = lc Prod m_i^n_i over their minimal polynomials.  The hand model is validated on each run by evaluating it '
             'inside Coq (vm_compute over Q(i)) against what the real methods returned for generated rational functions in s, z, '
-            'j omega, j 2 pi f (47 method variants incl. timeconst_terms, as_N_D(monic), coeffs/normcoeffs, as_monic_terms, '
-            'expand_response, poles/zeros/roots(pairs=True)).',
+            'j omega, j 2 pi f (49 method variants incl. timeconst_terms, as_N_D(monic), coeffs/normcoeffs, as_monic_terms, '
+            'expand_response, poles/zeros/roots(pairs=True)).  Delay/undef side channel of the tuple decompositions: Ratfun.as_QMA '
+            '(as_QMA_preserves: quotient + remainder/A with the TRANSLATED delay and undef slots equals the value, deg M < deg A; '
+            'as_QMA_observed_preserves for the observed Q, M, A accepted by the in-Coq comparison) and Expr.as_ratfun_delay '
+            '(as_ratfun_delay_preserves over the slot selection translated fail-closed from lcapy/expr.py).',
     'note': 'Trusted: Coq kernel/vm_compute; tools/tr_ratfun.py (abstract interpreter over the method bodies, pair_conjugates branches) + '
             'statement templates in checks/c11.py; harness exact evaluator tools/ratfun_exact.py; sympy roots/residues/cancel/simplify '
             'are oracles whose answers are checked per case by the verified checkers roots_cert / pf_check / pairing_ok / minpoly_cert; '
@@ -81,6 +84,7 @@ DATA_METHODS = [
     ('recip_QRPO', 'recip_QRPO', {}), ('cf_coeffs', 'cf_coeffs', {}),
     ('cfi_coeffs', 'cfi_coeffs', {}), ('as_N_D_monic', 'as_N_D_monic', {}), ('coeffs', 'coeffs', {}),
     ('poles_pairs', 'poles_pairs', {}), ('zeros_pairs', 'zeros_pairs', {}), ('N_roots_pairs', 'N_roots_pairs', {}), ('D_roots_pairs', 'D_roots_pairs', {}),
+    ('as_QMA', 'as_QMA', {}), ('as_ratfun_delay', 'as_ratfun_delay', {}),
 ]
 # execution order: timeout-prone methods last (an interrupted method taints the rest of its case)
 _LATE = ('simplify', 'simplify_terms', 'simplify_factors', 'ratden')
@@ -630,6 +634,28 @@ def oracle_case(c, r):
                         break
             except (NotExact, ZeroDivisionError):
                 pass
+        if key == 'as_QMA':
+            # (Q + M/A) exp(-delay var) undef == expression, deg M < deg A   (Fractions; independent of the Coq division)
+            try:
+                Qo, Mo, Ao = ([G.des(q) for q in m[nm_]] for nm_ in ('Q', 'M', 'A'))
+                for k, x in enumerate(pts):
+                    v = (peval(Qo, x) + peval(Mo, x) / peval(Ao, x)) * E3(G(0) - x * G.des(m['delay'])) * G.des(m['undef'][k])
+                    if v != orig[k]:
+                        bad.append((key, k, '(Q + M/A) exp(-delay var) undef does not reconstruct'))
+                        break
+                else:
+                    if len(trim(Mo)) >= len(trim(Ao)):
+                        bad.append((key, 0, 'remainder degree not below the denominator degree'))
+            except (NotExact, ZeroDivisionError):
+                pass
+        if key == 'as_ratfun_delay':
+            try:
+                for k, x in enumerate(pts):
+                    if G.des(m['rvals'][k]) * E3(G(0) - x * G.des(m['delay'])) != orig[k]:
+                        bad.append((key, k, 'ratfun exp(-delay var) does not reconstruct'))
+                        break
+            except (NotExact, ZeroDivisionError):
+                pass
         if key in ('as_QRF', 'as_QRF_cc'):
             try:
                 for k, x in enumerate(pts):
@@ -734,6 +760,67 @@ Proof. split; [intros x d; cbn [a_exp %s]; ring | reflexivity]. Qed.
 Local Notation att_ok_here := attach_%s_ok.
 '''
 
+def translate_ratfun_delay(repo):
+    """fail-closed extraction of Expr.as_ratfun_delay (lcapy/expr.py): which slots of the tuple returned by
+    Ratfun.as_B_A_delay_undef() make up the returned expression (a quotient), the returned delay and the guarded
+    (must-be-1) factor.  Returns (coq text, sha, line); anything but the recognised shape raises Untranslatable."""
+    import ast
+    path = os.path.join(repo, 'lcapy', 'expr.py')
+    src = open(path).read()
+    fns = [n for n in ast.walk(ast.parse(src)) if isinstance(n, ast.FunctionDef) and n.name == 'as_ratfun_delay']
+    if len(fns) != 1:
+        raise T.Untranslatable('lcapy/expr.py: expected exactly one def as_ratfun_delay, found %d' % len(fns))
+    fn = fns[0]
+
+    def bad(node, msg):
+        raise T.Untranslatable('lcapy/expr.py:%d: as_ratfun_delay: %s' % (getattr(node, 'lineno', fn.lineno), msg))
+    body = list(fn.body)
+    if body and isinstance(body[0], ast.Expr) and isinstance(body[0].value, ast.Constant) and isinstance(body[0].value.value, str):
+        body = body[1:]
+    if len(body) != 4:
+        bad(fn, 'expected 4 statements, found %d' % len(body))
+    s0, s1, s2, s3 = body
+    if not (isinstance(s0, ast.Assign) and len(s0.targets) == 1 and isinstance(s0.targets[0], ast.Name)
+            and ast.unparse(s0.value) == 'self._ratfun_check()'):
+        bad(s0, 'expected `<name> = self._ratfun_check()`')
+    rname = s0.targets[0].id
+    if not (isinstance(s1, ast.Assign) and len(s1.targets) == 1 and isinstance(s1.targets[0], ast.Tuple) and len(s1.targets[0].elts) == 4
+            and all(isinstance(e, ast.Name) for e in s1.targets[0].elts) and ast.unparse(s1.value) == rname + '.as_B_A_delay_undef()'):
+        bad(s1, 'expected `b, a, delay, undef = %s.as_B_A_delay_undef()`' % rname)
+    names = [e.id for e in s1.targets[0].elts]
+    if len(set(names)) != 4:
+        bad(s1, 'repeated name in the unpacked tuple')
+    if not (isinstance(s2, ast.If) and not s2.orelse and len(s2.body) == 1 and isinstance(s2.body[0], ast.Raise)
+            and isinstance(s2.test, ast.Compare) and len(s2.test.ops) == 1 and isinstance(s2.test.ops[0], ast.NotEq)
+            and isinstance(s2.test.left, ast.Name) and s2.test.left.id in names
+            and len(s2.test.comparators) == 1 and isinstance(s2.test.comparators[0], ast.Constant) and s2.test.comparators[0].value == 1
+            and type(s2.test.comparators[0].value) is int):
+        bad(s2, 'expected `if <slot> != 1: raise ...`')
+    guard = names.index(s2.test.left.id)
+    ok = (isinstance(s3, ast.Return) and isinstance(s3.value, ast.Tuple) and len(s3.value.elts) == 2)
+    if ok:
+        e0, e1 = s3.value.elts
+        ok = (isinstance(e0, ast.Call) and ast.unparse(e0.func) == 'self.__class__' and len(e0.args) == 1
+              and len(e0.keywords) == 1 and e0.keywords[0].arg is None and ast.unparse(e0.keywords[0].value) == 'self.assumptions'
+              and isinstance(e0.args[0], ast.BinOp) and isinstance(e0.args[0].op, ast.Div)
+              and isinstance(e0.args[0].left, ast.Name) and e0.args[0].left.id in names
+              and isinstance(e0.args[0].right, ast.Name) and e0.args[0].right.id in names
+              and isinstance(e1, ast.Name) and e1.id in names)
+    if not ok:
+        bad(s3, 'expected `return self.__class__(<slot> / <slot>, **self.assumptions), <slot>`')
+    num, den, dly = names.index(e0.args[0].left.id), names.index(e0.args[0].right.id), names.index(e1.id)
+    seg = ast.get_source_segment(src, fn) or ''
+    import hashlib
+    sha = hashlib.sha256(seg.encode()).hexdigest()[:16]
+    txt = ('\n(* Expr.as_ratfun_delay (lcapy/expr.py line %d, sha256 %s): slots t0..t3 of as_B_A_delay_undef() = (B, A, delay, undef);\n'
+           '   returns (%s / %s, %s), raises unless %s = 1 *)\n'
+           'Definition att_rd_val (K : fld) (t0 t1 t2 t3 : K) : K := t%d / t%d.\n'
+           'Definition att_rd_delay (K : fld) (t0 t1 t2 t3 : K) : K := t%d.\n'
+           'Definition att_rd_guard (K : fld) (t0 t1 t2 t3 : K) : K := t%d.\n') % (
+               fn.lineno, sha, names[num], names[den], names[dly], names[guard], num, den, dly, guard)
+    return txt, sha, fn.lineno
+
+
 # statement templates: key -> (attach name, theorem body, proof)
 def theorem_files(tr):
     res = tr.result
@@ -819,6 +906,30 @@ def theorem_files(tr):
         mk('init_N', 'att_init_N', [('init_N_over_D',
             V + ', peval A x <> 0 -> (peval B x * dfac E (att_init_N K) x d * ufac (att_init_N K) u) / peval A x = sem E B A d u x',
             'intros. rewrite (dfac_ok K E E0 _ _ _ att_ok_here), (ufac_ok K _ _ att_ok_here). unfold sem. field. assumption.')])
+    if 'as_QMA' in res['tuples'] and 'delay' in res['tuples']['as_QMA']:
+        # Ratfun.as_QMA returns (Q, M, A, delay, undef) with Q, M = sym.div(B, A): the model quotient / remainder with the
+        # TRANSLATED delay and undef slots reconstruct the value; an observed (Q, M) accepted by the in-Coq comparison does too
+        mk('as_QMA', None, [
+            ('as_QMA_preserves',
+             V + ', pzerob A = false -> peval A x <> 0 -> '
+             '(peval (pquo B A) x + peval (pmod B A) x / peval A x) * E (- (x * dslot_as_QMA K x d)) * (if uslot_as_QMA then u else 1) = sem E B A d u x '
+             '/\\ (psize (pmod B A) < psize A)%nat',
+             'intros B A d u x HA Hx. destruct (pmod_spec K B A HA) as [He Hs]. split; [|exact Hs]. '
+             'unfold sem, dslot_as_QMA, uslot_as_QMA. rewrite (He x). field. exact Hx.'),
+            ('as_QMA_observed_preserves',
+             'forall (B A Q M A\' : list K) (d u x : K), pzerob A = false -> peval A x <> 0 -> '
+             'peqb Q (pquo B A) = true -> peqb M (pmod B A) = true -> peqb A\' A = true -> '
+             '(peval Q x + peval M x / peval A\' x) * E (- (x * dslot_as_QMA K x d)) * (if uslot_as_QMA then u else 1) = sem E B A d u x '
+             '/\\ (psize M < psize A\')%nat',
+             'intros B A Q M A\' d u x HA Hx HQ HM HA\'. destruct (as_QMA_preserves B A d u x HA Hx) as [Hv Hs]. '
+             'rewrite (peqb_sound K _ _ HQ x), (peqb_sound K _ _ HM x), (peqb_sound K _ _ HA\' x), (peqb_size K _ _ HM), (peqb_size K _ _ HA\'). '
+             'split; assumption.')])
+    if getattr(tr, 'rd', None) is not None:
+        mk('as_ratfun_delay', None, [
+            ('as_ratfun_delay_preserves',
+             'forall (B A : list K) (d u x : K), peval A x <> 0 -> att_rd_guard K (peval B x) (peval A x) d u = 1 -> '
+             'att_rd_val K (peval B x) (peval A x) d u * E (- (x * att_rd_delay K (peval B x) (peval A x) d u)) = sem E B A d u x',
+             'intros B A d u x Hx Hg. unfold att_rd_guard in Hg. unfold att_rd_val, att_rd_delay, sem. rewrite Hg. field. exact Hx.')])
     # tuple slots
     slot_stmts = []
     for key, t in sorted(res['tuples'].items()):
@@ -1019,6 +1130,17 @@ def case_defs(c, r, pre, avail=None):
             for k in range(len(pts)):
                 checks.append(('coeffs', k, 'veq (peval %s %sx%d) %s && veq (fmul (f:=QcIF) %s (peval %s %sx%d)) %s && veq (plc (K:=QcIF) %s) (qi 1 1 0 1)' % (
                     tplist(cs), pre, k, qi(m_[nm_][k]), qi(m_[nm_ + 'c'][0]), tplist(ns), pre, k, qi(m_[nm_][k]), tplist(ns))))
+    if ok('as_QMA'):
+        m_ = M['as_QMA']
+        for k in range(len(pts)):
+            checks.append(('as_QMA', k, 'peqb %s (pquo %s %s) && peqb %s (pmod %s %s) && peqb %s %s && veq (dslot_as_QMA QcIF %sx%d %s) %s && uslot_as_QMA && veq %su%d %s' % (
+                tplist(m_['Q']), B, A, tplist(m_['M']), B, A, tplist(m_['A']), A, pre, k, d, qi(m_['delay']), pre, k, qi(m_['undef'][k]))))
+    if ok('as_ratfun_delay'):
+        m_ = M['as_ratfun_delay']
+        for k in range(len(pts)):
+            args = '(peval %s %sx%d) (peval %s %sx%d) %s %su%d' % (B, pre, k, A, pre, k, d, pre, k)
+            checks.append(('as_ratfun_delay', k, 'veq (att_rd_val QcIF %s) %s && veq (att_rd_delay QcIF %s) %s && veq (att_rd_guard QcIF %s) (qi 1 1 0 1)' % (
+                args, qi(m_['rvals'][k]), args, qi(m_['delay']), args)))
     if ok('cf') and ok('cf_coeffs'):
         for k in range(len(pts)):
             checks.append(('cf', k, 'chk_cf %s %s %sx%d %s %s' % (B, A, pre, k, plist([cf[k] for cf in M['cf_coeffs']['coeffs']]), qi(M['cf']['vals'][k]))))
@@ -1057,6 +1179,7 @@ FILE_METHOD = {'C11_canonical.v': ['canonical'], 'C11_canonical_fc.v': ['canonic
                'C11_expandcanonical.v': ['expandcanonical'], 'C11_timeconst.v': ['timeconst'], 'C11_ZPK.v': ['ZPK', 'factored'],
                'C11_ZPK_cc.v': ['ZPK', 'factored'], 'C11_partfrac.v': ['partfrac', 'recippartfrac'], 'C11_partfrac_cc.v': ['partfrac'],
                'C11_partfrac_cc_all.v': ['partfrac'], 'C11_init_N.v': ['N'], 'C11_decomp.v': ['decomposition'], 'C11_slots.v': ['as_QRPO'],
+               'C11_as_QMA.v': ['as_QMA'], 'C11_as_ratfun_delay.v': ['as_ratfun_delay'],
                'C11_pairconj.v': ['ZPK', 'factored', 'poles(pairs=True)', 'zeros(pairs=True)', 'roots(pairs=True)']}
 
 
@@ -1097,6 +1220,7 @@ def run(tier='quick', replay=None):
             'Coq 8.16.1 kernel + vm_compute (no native_compute)',
             'translator tools/tr_ratfun.py (sha256 %s): abstract interpreter extracting exp(...)/undef attachment, delay slots, delay update and the as_QRF partner-order guard; statement templates in checks/c11.py' % core.sha256_file(trp)[:16],
             'hand model coq/theory/RatfunFmt.v, RatfunCF.v (formats as value functions), polynomial theory PolyQ.v, Gaussian rationals QcI.v',
+            'shape recogniser translate_ratfun_delay in checks/c11.py (Expr.as_ratfun_delay: exact statement shape, slot indices extracted; anything else is Untranslatable)',
             'harness exact evaluator tools/ratfun_exact.py (Fractions over Q(i); exp |-> 3^re 5^im homomorphism; undef |-> fixed rationals; pi |-> 22/7 as an indeterminate)',
             'oracles, not verified: sympy roots / residue computation / cancel / div / simplify — their answers are accepted only through the verified checkers roots_cert, roots_partial, pf_check, pairing_ok (theorems *_sound) or compared by value',
         ]
@@ -1117,7 +1241,15 @@ def run(tier='quick', replay=None):
             for key, msg in tr.result['errors'].items():
                 res.failed_obl.append(('translate_%s' % key, 'lcapy/ratfun.py', msg))
                 res.obligations += 1
-            texts['RatfunAttach.v'] = tr.coq()
+            tr.rd = None
+            rd_txt = ''
+            try:
+                rd_txt, rd_sha, rd_line = translate_ratfun_delay(core.REPO)
+                tr.rd = {'sha': rd_sha, 'line': rd_line}
+            except T.Untranslatable as e:
+                res.failed_obl.append(('translate_as_ratfun_delay', 'lcapy/expr.py', str(e)))
+                res.obligations += 1
+            texts['RatfunAttach.v'] = tr.coq() + rd_txt
             w.write('RatfunAttach.v', texts['RatfunAttach.v'])
             ok, out, secs = core.coqc(w.dir, 'RatfunAttach.v')
             if not ok:
